@@ -25,8 +25,10 @@ theorem stream_of_get? {s : Streams} {k : Nat} {x : Stream} (h : s.store.get? k 
 -- ===================================================================== steps that leave store and queues alone
 
 theorem panic_ev (s : Streams) (m : String) : Ev s (s.panic m) := by
-  refine .free ⟨?_, ?_, ?_, ?_, ?_⟩ <;> unfold Streams.panic <;> cases h : s.panicked <;> simp [CStep.refl, NextOK.refl]
-  all_goals first | rfl | (intro q; rfl)
+  unfold Streams.panic
+  split
+  · exact .refl _
+  · exact .free ⟨rfl, CStep.refl _, fun _ => rfl, fun _ => rfl, NextOK.refl _ _⟩
 
 theorem unsup_ev (s : Streams) (m : String) : Ev s (s.unsup m) := by
   unfold Streams.unsup
@@ -118,24 +120,23 @@ theorem modStreamW_ev (s : Streams) (k : Nat) (f : Stream → Stream × List Str
 
 -- ===================================================================== frame facts about single steps
 
+theorem find?_map_key (l : List Stream) (g : Stream → Stream) (k : Nat) (hg : ∀ x, (g x).key = x.key) :
+    (l.map g).find? (·.key == k) = (l.find? (·.key == k)).map g := by
+  induction l with
+  | nil => rfl
+  | cons a l ih =>
+    simp only [List.map_cons, List.find?_cons, hg]
+    cases a.key == k
+    · simpa using ih
+    · rfl
+
 theorem setStream_get? (s : Streams) (st' : Stream) (k : Nat) :
     (s.setStream st').store.get? k = (s.store.get? k).map fun x => if x.key == st'.key then st' else x := by
   unfold Streams.setStream Store.set Store.get?
-  simp only
-  induction s.store.slab with
-  | nil => rfl
-  | cons a l ih =>
-    simp only [List.map_cons, List.find?_cons]
-    by_cases hak : a.key == st'.key
-    · simp only [hak, if_true]
-      by_cases hk : a.key == k
-      · have : st'.key == k := by simp at hak hk ⊢; omega
-        simp [hk, this, hak]
-      · have : (st'.key == k) = false := by simp at hak hk ⊢; omega
-        simp [hk, this, ih]
-    · simp only [hak]
-      by_cases hk : a.key == k
-      · simp [hk, hak]
-      · simp [hk, ih]
+  refine find?_map_key _ _ k ?_
+  intro x
+  by_cases h : x.key == st'.key
+  · simp only [h, if_true]; simp at h; exact h.symm
+  · simp only [h]; rfl
 
 end H2V.Lemmas.ConnCountsP
